@@ -2047,6 +2047,10 @@ func (t *Topic) anotherUserSub(sess *Session, asUid, target types.Uid, asChan bo
 			modeWant:  sub.ModeWant,
 			private:   nil,
 		}
+		if t.cat == types.TopicCatP2P {
+			// The target sees the p2p topic under the name of the other participant.
+			userData.topicName = asUid.UserId()
+		}
 		t.perUser[target] = userData
 		t.computePerUserAcsUnion()
 
